@@ -24,7 +24,7 @@ from .seeds import hashseed_for
 def _run_indices(prop, indices, hashseed, scratch, tier="quick"):
     from .runner import _spawn, _collect
     spec = {"mode": "explore", "prop": prop, "tier": tier, "seed": 0, "indices": indices, "wall": 600,
-            "keep_all_sigs": True, "keep_sig": []}
+            "keep_all_sigs": True, "keep_sig": [], "fingerprint": True}
     p, o, e = _spawn(spec, scratch, hashseed)
     return p, o, e
 
@@ -55,6 +55,10 @@ def determinism(args, seed):
             for w in range(3):
                 b.update(outs["B%d" % w]["sigs"])
             diff = [i for i in a if a[i] != b.get(i)]
+            fps = [outs[k].get("fingerprint") for k in sorted(outs)]
+            if any(fp and fp[0] != fp[1] for fp in fps):
+                bad += 1
+                print("  registry fingerprint changed over a batch (restore is not exact): %s" % fps)
             if check.hashseed_is_property:
                 note = " (signatures; hash-seed independence is the property itself)"
             else:
